@@ -42,7 +42,10 @@ Reset ==
   /\ IsEvent("scen")
   /\ scen' = Ev.scen
   /\ st' = [InitState(Ev.scen.engine) EXCEPT !.logOps = TRUE]
-  /\ rxMode' \in [args : RxModes, other : RxModes]
+  \* the ARGS family may read a regex key in any of the three ways (the pinned code applies the
+  \* pattern as written to the folded key); every other collection selects at least the keys
+  \* that match the pattern exactly as sent
+  /\ rxMode' \in [args : RxModes, other : {"orig", "fold"}]
   /\ p' = 0 /\ i' = 1 /\ inPhase' = FALSE
   /\ l' = l + 1
 
